@@ -249,8 +249,13 @@ func TestC05(t *testing.T) {
 			if cch.Has(wire.ExtPreSharedKey) {
 				continue
 			}
-			f := &tls.Fingerprinter{}
 			for k := 0; k < 10; k++ {
+				// the Fingerprinter's options do not change what a capture with a padding
+				// extension says about its length
+				f := &tls.Fingerprinter{AlwaysAddPadding: k%2 == 1, AllowBluntMimicry: k%3 == 2}
+				if f.AlwaysAddPadding {
+					r.Count("fingerprinted_with_AlwaysAddPadding", 1)
+				}
 				// k >= 3: the same capture as another stack would have sent it, with a legacy_session_id
 				// of another length (empty as in QUIC / TLS 1.2-style hellos, 8, 16 bytes)
 				sidLen := 32
@@ -273,7 +278,15 @@ func TestC05(t *testing.T) {
 					capRaw = marshalCH(&c2, cch.Exts, true)
 					r.Count("captures_with_short_session_id", 1)
 				}
-				spec, err := f.FingerprintClientHello(recordOf(capRaw))
+				dump := recordOf(capRaw)
+				if k == 1 || k == 2 || k == 7 {
+					// a capture file that goes on after the ClientHello record (the client's later
+					// records: ChangeCipherSpec, encrypted data): the hello's length is its own
+					dump = append(append([]byte(nil), dump...), 20, 3, 3, 0, 1, 1)
+					dump = append(dump, append([]byte{23, 3, 3, 0, byte(40 * k)}, make([]byte, 40*k)...)...)
+					r.Count("captures_followed_by_later_records", 1)
+				}
+				spec, err := f.FingerprintClientHello(dump)
 				if err != nil {
 					r.Violation(map[string]string{"kind": "fingerprint_error", "parrot": p.Name}, err.Error(), nil)
 					break
